@@ -158,6 +158,9 @@ def provided_and_abs(sc, cwd):
 
 def outcome_of_facts(ff):
     """fileFacts (harness, abort semantics) -> model outcome s-expression"""
+    if ff.get("panic"):
+        # recovered by gopatch and reported as an error for the file
+        return ["rerr", hx("internal error")]
     steps = ff["steps"] or []
     for s in steps:
         if s["replace_err"]:
